@@ -5,6 +5,7 @@ import (
 	"sync"
 
 	"github.com/elliotchance/orderedmap/v3"
+	"github.com/mitchellh/hashstructure/v2"
 	"gopkg.in/yaml.v3"
 
 	"github.com/go-task/task/v3/errors"
@@ -32,6 +33,24 @@ func NewVars(els ...*VarElement) *Vars {
 		vars.Set(el.Key, el.Value)
 	}
 	return vars
+}
+
+// Hash implements the hashstructure.Hashable interface so that the names and
+// values of the variables take part in the hash of a task (used to tell calls
+// of a `run: when_changed` task apart). Without it the unexported fields of
+// Vars are skipped and any two sets of variables hash alike.
+func (vars *Vars) Hash() (uint64, error) {
+	// The order of the variables has no meaning here
+	return hashstructure.Hash(vars.ToMap(), hashstructure.FormatV2, nil)
+}
+
+// ToMap returns the variables as a plain (unordered) map.
+func (vars *Vars) ToMap() map[string]Var {
+	m := make(map[string]Var, vars.Len())
+	for k, v := range vars.All() {
+		m[k] = v
+	}
+	return m
 }
 
 // Len returns the number of variables in the Vars map.
